@@ -185,6 +185,8 @@ def validate_chunk(args):
             fsrc, outs, nout = function_source(k, spec, ops, slots)
             cast = cparse.parse_behaviour(spec.text)
             cases = []
+            if ceval.has_unsequenced(cast, env.c_routines):
+                states = []
             for vec in states:
                 w, locs = prog.build_c_world(spec, ops, slots, vec)
                 it = ceval.Interp(env.c_routines, frozenset())
